@@ -7,7 +7,7 @@ CLAIMED = {
              "normal and exceptional exits) is replayed on the real Terminal.map_fmmu for n=1..4 and the "
              "recorded run (slot, register writes, fmmu_used after every step) is validated by TLC as a "
              "behaviour of the spec. Exhaustive within the bound, which is the right level for a small "
-             "slot table whose bugs are index-arithmetic cases. Later widened: mappings of one terminal entered concurrently (one task each, the bus stub suspends at every register access), events in completion order.",
+             "slot table whose bugs are index-arithmetic cases. Later widened: mappings of one terminal entered concurrently (one task each, the bus stub suspends at every register access), events in completion order. The logical address 0 is among the addresses used.",
         note="Trusts TLC, the bus stub that records register writes, and that fmmu_used is the master's "
              "table. Scripts longer than the bound and more than 3 concurrent mappings are not explored.",
         technique="TLA+ spec Fmmu + TLC exhaustive model check; TLC-enumerated scripts replayed on real "
@@ -21,7 +21,7 @@ CLAIMED = {
              "within the bound (start state, error flag, each transition taking 0..k polls, an error at any "
              "poll, each target; k=2 quick, 3 thorough); each is played by a simulated terminal against the "
              "real Terminal.to_operational on a real EtherCat object, and the recorded 0x120 writes, 0x130 "
-             "reads and outcome are validated by TLC as a behaviour of the spec. Exhaustive within the bound.",
+             "reads and outcome are validated by TLC as a behaviour of the spec. Exhaustive within the bound. Later widened: AL status words with bits above the error indicator set (0x20, 0x40, 0x8020), decoded by the trace spec itself.",
         note="BOOTSTRAP starts and terminals reporting unrequested states are outside the bound; a stall is "
              "rejected. Trusts TLC and harness/simbus.py's AL register model.",
         technique="TLA+ spec AlDriver + TLC exhaustive model check; TLC-enumerated scripts replayed on real "
@@ -33,7 +33,7 @@ CLAIMED = {
              "Fixed-seed well-formed EEPROM images x TLC-enumerated interface scripts (read width, busy "
              "durations) run the real read_eeprom / parse_sync_managers / parse_pdos (EEPROM and SDO source) "
              "and EtherCat.eeprom_read over a simulated bus; TLC evaluates SiiImage.tla on each image and "
-             "judges every returned value; register-access traces are validated against Sii.tla. Later widened: boundary category types (0, 1, 0x00FF, 0x7FFF, 0x8000, 0xFFFE) with 0-2 words first, in the middle and last.",
+             "judges every returned value; register-access traces are validated against Sii.tla. Later widened: boundary category types (0, 1, 0x00FF, 0x7FFF, 0x8000, 0xFFFE) with 0-2 words first, in the middle and last. Also long busy periods (99, 100, 101, 150, 1000 polls) at every position of a read pattern.",
         note="Images are sampled, not exhaustive; ill-formed images are outside the precondition. Trusts "
              "simbus' SII model (its register behaviour is itself trace-validated) and a minimal expedited "
              "CoE upload server.",
@@ -48,7 +48,7 @@ CLAIMED = {
              "the designed address scheme (AllocRef) is model-checked against it. TLC enumerates "
              "configurations (FMMU / direct / Aerotech terminals, sizes up to 1400, 1-3 groups, regions "
              "resized around the frame limit); each is built from real terminal, device and SyncGroup "
-             "objects, allocate() is run, and TLC validates pdo_assign, fmmu_maps and the assembled frame.",
+             "objects, allocate() is run, and TLC validates pdo_assign, fmmu_maps and the assembled frame. Later widened: TLC-enumerated allocation histories of a bus (many earlier allocations, crowds of live groups, two cooperating processes with neighbouring process numbers).",
         note="Exhaustive within the bound plus seeded random configurations. An exception other than a "
              "justified OverflowError is a rejected case. The FMMU length programmed by map_fmmu and "
              "FastSyncGroup's sterile frames are not covered.",
@@ -61,7 +61,7 @@ CLAIMED = {
              "x 4 addresses. Real scan_serial_numbers and concurrent Terminal.initialize run on a simulated "
              "bus with narrowed address ranges so that collisions are forced, varied start orders and "
              "response delays; every write of the station-address register must be in range, never written "
-             "before and never an address at which a terminal answered; TLC validates each trace.",
+             "before and never an address at which a terminal answered; TLC validates each trace. Also pre-assigned addresses shared by several terminals (probes answered with working counter 2 or more).",
         note="Schedules are sampled (seeded), not exhaustive. 'Within the configured range' is read as "
              "lo <= a <= hi, the reading under which the property text is satisfiable by randint; the "
              "half-open reading used by the mailbox lock file is recorded in DESIGN.md as an observation "
@@ -91,7 +91,7 @@ CLAIMED = {
              "the variable must have changed by exactly the sum of all amounts. All statement shapes: 4 memory "
              "kinds (array map, per-CPU map, local, raw memory through the map base) x formats i I q Q x x "
              "+= / -= x constant (small, negative, 2^31-1, 2^40+7) / register / expression amounts x initial "
-             "values incl. wrap-around. Exhaustive over schedules for each case.",
+             "values incl. wrap-around. Exhaustive over schedules for each case. Also members of a looked-up Dict value (shared through the hash map).",
         note="Ebpf.tla is a model of the ISA: cross-checked against the kernel on 1 800 runs of 600 random "
              "verifier-accepted programs plus targeted packet / hash-helper / tail-call cases, 0 mismatches "
              "(harness/fidelity.py). An atomic add is one machine step, as on hardware. Per-CPU maps are "
@@ -107,7 +107,7 @@ CLAIMED = {
              "4 thorough; moving times {0,1,3}; both safe-state settings), each replayed on a real Valve whose "
              "coil and switches are bit variables of a real SyncGroup frame, with the module clock replaced by "
              "a virtual one; TLC validates coil, target and error after every update. Seeded longer histories "
-             "are added on top. Later widened: TLC-enumerated group histories of 1-3 Valve objects in one sync group, each valve judged by its own instance of the Valve spec.",
+             "are added on top. Later widened: TLC-enumerated group histories of 1-3 Valve objects in one sync group, each valve judged by its own instance of the Valve spec. Also reconfiguration (movingTime, safeState) as steps during a history.",
         note="As the property states, the position check is prescribed for the default safe state only; for "
              "safeState = True only the error reaction is judged. Resets in mid-history are not explored. "
              "'Elapsed' is read as now - lastGood >= movingTime.",
@@ -121,7 +121,7 @@ CLAIMED = {
              "start states, write gaps, accept and announce delays 0..k, buffer scribbling); each is played "
              "cycle by cycle on the real Serial.update() through the real EL6002.Channel descriptors in a real "
              "SyncGroup frame, the application side using the real pipes; TLC validates every update's output "
-             "image and delivered bytes and requires everything to be transferred at the end.",
+             "image and delivered bytes and requires everything to be transferred at the end. Also the device pickled into a really spawned child (every 12th behaviour), the application staying in the parent on the streams of the real connect().",
         note="The terminal model is the forgiving one (it registers transmit requests from the init "
              "acknowledgement on). Pipe-full / partial writes, writes above 50 bytes and re-initialisation are "
              "not covered.",
@@ -138,7 +138,7 @@ CLAIMED = {
              "varied start orders and delays; the mailbox headers seen by the terminal are validated by TLC. "
              "Cross-process: TLC enumerates system-call schedules for two participants including the creation "
              "window; each is replayed on the real LockFile / ParallelMailboxLock in two OS processes with "
-             "gated os/fcntl calls, and TLC validates lock outcomes, file bytes and counters. Later widened: lock holds that end by exception or cancellation (TLC chooses per hold), aborting exchanges end to end on the cross-process lock, and tasks of one process sharing one cross-process lock.",
+             "gated os/fcntl calls, and TLC validates lock outcomes, file bytes and counters. Later widened: lock holds that end by exception or cancellation (TLC chooses per hold), aborting exchanges end to end on the cross-process lock, and tasks of one process sharing one cross-process lock. Also a process using the mailboxes of several terminals at once (users of one process share the record locks).",
         note="Interleaving at system-call granularity; two participants replayed (three in the model); POSIX "
              "record-lock semantics are those of the sandbox kernel. Unrelated mail is kept out of these "
              "scripts (it belongs to C16).",
@@ -156,7 +156,7 @@ CLAIMED = {
              "and EtherCat over a simulated bus for mailbox sizes 32..256, value lengths 0..3 mailboxes, "
              "subindex and complete access, with TLC-generated scripts of delays, unrelated mail, short "
              "fragments and aborts; every mailbox message both ways, the call's outcome and the server's final "
-             "value are validated by TLC. The simulated server's own messages are validated by the same spec.",
+             "value are validated by TLC. The simulated server's own messages are validated by the same spec. Later widened: seven addresses (subindex 0, 1, 2, 5, 254, 255; indices 0x0001..0xFFFF) against every transfer kind, with neighbouring entries in the simulated terminal so that a misaddressed transfer lands somewhere.",
         note="Complete access and subindex access are modelled as independent objects; the outcome after a server "
              "abort is unconstrained. The server model follows the standard as read, not a physical device.",
         technique="TLA+ specs Sdo || CoE, TLC exhaustive design check; TLC-enumerated reply scripts; real "
@@ -187,7 +187,7 @@ CLAIMED = {
              "values, an optional trailing read-only format, raw data in {absent, count 0, count 3, b'', 1-3 "
              "bytes}, plus random requests; each is made through the real EtherCat.roundtrip with a queue "
              "consumer returning a position-dependent response; TLC validates the payload sent and the tuple "
-             "returned (or the exception).",
+             "returned (or the exception). Later widened: struct's whole '<' alphabet (signed and 64-bit integers, e / f / d floats incl. infinities and NaN on decoding, bools, chars, s / p strings), the spec encodes each.",
         note="Unsigned integer, pad and byte-string fields only; without any format the raw bytes may come back "
              "bare rather than as a 1-tuple.",
         technique="TLA+ spec Codec; TLC-enumerated requests replayed on real code; TLC trace validation",
@@ -221,7 +221,7 @@ CLAIMED = {
              "rotating destinations incl. registers and locals; fixed-seed random trees of depth 2-3), the "
              "emitted bytecode is executed by TLC on the eBPF machine from several input vectors (small, "
              "negative, boundary, random), and the destination's final bytes must be an admissible value "
-             "reduced to the destination whenever the precondition holds. Later widened: hash-map variables as operands and destinations, every fourth statement inside a temporary's block, every second register destination also an operand, and the `register + constant` class under every operator.",
+             "reduced to the destination whenever the precondition holds. Later widened: hash-map variables as operands and destinations, every fourth statement inside a temporary's block, every second register destination also an operand, and the `register + constant` class under every operator. Also: the destination register inside the right operand, plainly, under unary minus / abs and in deeper subtrees.",
         note="Bounded depth and sampled inputs, not all programs. The precondition is read conservatively: a "
              "case outside it is skipped, never judged (about 17% of runs). Two recorded known findings "
              "(signed // % emitted unsigned; sw register not sign-extended for an 8-byte destination) are "
@@ -325,7 +325,7 @@ CLAIMED = {
              "end of the second cycle (thorough: and a second cancel at every later iteration); the fast kind "
              "uses a real kernel program table with the group program really loaded; the real "
              "ProcessSyncGroup.start() spawns its child and is cancelled before its first step, while booting, "
-             "while cycling and at an exit race. TLC validates every recorded run. Cancelled after every event-loop iteration up to the end of cycle 2, x every later iteration for a second cancel, x every iteration later still for a third (three-writer configurations; thorough: all gating configurations).",
+             "while cycling and at an exit race. TLC validates every recorded run. Cancelled after every event-loop iteration up to the end of cycle 2, x every later iteration for a second cancel, x every iteration later still for a third (three-writer configurations; thorough: all gating configurations). Also one terminal in turn going silent at the first cancel (a silent writer ending the task with a bus error is counted, not judged).",
         note="Exhaustive over cancellation iterations for the listed configurations, not over configurations. The "
              "child runs a stand-in ParallelEtherCat.run (no NIC). The harness translates lookup_elem's KeyError "
              "into the OSError register_sync_group waits for (see DESIGN.md 10, observation). The FMMU "
@@ -356,7 +356,7 @@ CLAIMED = {
              "the law evaluated on the run's own inputs. Inputs: a boundary grid aiming the desired velocity at "
              "each limit -1/0/+1 and far beyond int16 up to 2^63-1, x acceleration x velocity limit x previous "
              "velocity x both switches, two PDO layouts (FMMU and direct), plus seeded random inputs; a sample "
-             "is cross-checked on the real kernel.",
+             "is cross-checked on the real kernel. Later widened: six layouts over every bundled motor terminal (EL7041, EL7332 with EL5042 encoder, EL7062), the meaning of the frame variables taken from device descriptions written independently of terminals.py, the PDO tables from the real parse_pdos.",
         note="Decided on the grid and samples, not for all bit-vectors (no symbolic proof was attempted: Apalache on "
              "the machine was judged out of reach in the time). Assumes output enabled (wkc_errors != 0) and the "
              "property's preconditions (limit within the output's range, previous velocity within the limit, "
@@ -407,7 +407,7 @@ CLAIMED = {
              "deliveries in any order, losses, injections, enabling and unregistering with at most three frames "
              "in flight: never dropped; foreign frames pass unchanged; frames of an unregistered group reach "
              "user space with the ethertype of the identification datagram; at most two consecutive deliveries "
-             "without the group's program. Later widened: frames whose identification index agrees with a group number in its low 8 / 16 / 24 bits only (they must leave the group alone and reach user space); transitions that depend on the kernel's random number are judged with the value 0.",
+             "without the group's program. Later widened: frames whose identification index agrees with a group number in its low 8 / 16 / 24 bits only (they must leave the group alone and reach user space); transitions that depend on the kernel's random number are judged with the value 0. Also the slots at the edges of the program table (0, 1, 31, 62, 63; thorough: all 64) compared row by row with the modelled group.",
         note="Age bound K = 4 (quick, 20 counter values across the 255->0 wrap) / 8 (thorough, all 256). User "
              "space injects only while the group is registered (as FastSyncGroup.run does). One recorded known "
              "finding: with out-of-order returns three consecutive deliveries go by without the group's program "
@@ -498,7 +498,7 @@ CLAIMED = {
              "library's single syscall wrapper is recorded with the measured lengths of the Python buffers behind "
              "it while the whole user-space API is driven (array maps, per-CPU read(), hash variables of every "
              "format, Dict set / get / pop / del / iteration) on fixed-seed randomly declared maps, on this host and "
-             "on simulated hosts with more possible than online CPUs; TLC validates the event list. Later widened: a per-CPU map extended in a subclass with instances of both classes; simulated hosts answer every source of a CPU count consistently (possible >= online >= process affinity), and the real host pinned to one CPU.",
+             "on simulated hosts with more possible than online CPUs; TLC validates the event list. Later widened: a per-CPU map extended in a subclass with instances of both classes; simulated hosts answer every source of a CPU count consistently (possible >= online >= process affinity), and the real host pinned to one CPU. Also byte-order-prefixed formats in half of the declarations.",
         note="Trusts the fake kernel's transfer sizes (taken from kernel/bpf/syscall.c) and the frame walk that finds "
              "the buffers. mmap-ed array maps carry no obligation.",
         technique="TLA+ spec BpfCalls + TLC exhaustive model check; TLC trace validation of recorded bpf() events",
